@@ -71,6 +71,7 @@ def collect(c, registry=None, timeout_ms=10000):
                 raise Unsupported('path limit %d exceeded' % MAX_PATHS)
             ctx = Ctx(prefix, pending)
             I = Exec(ctx, module, registry, c, models=models)
+            ctx.interp = I
             I.calls = models
             I.loop_specs = dict(c.loops)
             I.loop_ordinals = ordinals
@@ -137,6 +138,9 @@ def run_path(I, c, fn, module, res):
             ctx.assume(I.as_goal(I.pure_eval(r, fr)))
         for f in c.facts:
             ctx.assume(f)
+        for a in getattr(c, 'axioms', []):
+            ctx.assume(I.as_goal(I.pure_eval(a, fr)))
+            I.assumptions.add('definitional axiom of a specification function assumed in %s: %s' % (c.qualname, a))
         if not ctx.feasible(z3.BoolVal(True)):
             raise PathEnd()
         res.pre_ok += 1
@@ -167,7 +171,16 @@ def run_path(I, c, fn, module, res):
                 for i, e in enumerate(c.yield_invariant):
                     ctx.oblige(I.oname('yield-inv', node.lineno, i), I.as_goal(I.pure_eval(e, pf)), 'yield', node.lineno)
                 for path in c.yield_havoc:
-                    I.havoc_path(path, pf, {})
+                    if path == '*rep':
+                        # control goes to the consumer, who may run any query: every object invariant must
+                        # hold here, and the caches may be in any state satisfying them on resumption
+                        for j, (opath, obj) in enumerate(I.models.rep_objects(pf)):
+                            for i, t in enumerate(getattr(obj, 'inv_texts', ())):
+                                ctx.oblige(I.oname('yield-rep-inv[%s]' % opath, node.lineno, i),
+                                           I.goal(gsub(t), Frame({'self': obj}, None)), 'yield', node.lineno)
+                        I.models.havoc_reps(I, pf)
+                        continue
+                    I.havoc_path(path, pf, getattr(c, 'havoc_shapes', {}))
                 for e in c.yield_invariant:
                     ctx.assume(I.as_goal(I.pure_eval(e, pf)))
                 if c.interference:
@@ -216,6 +229,25 @@ def run_path(I, c, fn, module, res):
             for cls, cond in c.raises.items():
                 g = I.as_goal(I.pure_eval(cond, old))
                 ctx.oblige(I.oname('raises-iff[%s]' % cls, None), z3.Not(g), 'raises')
+            # frame: state reachable from the parameters that differs from the entry state must be
+            # declared (modifies / sets / yield_havoc); callers rely on everything else being unchanged
+            declared = set(c.modifies) | set(c.yield_havoc) | {'self.' + k for k in list(c.sets) + list(c.sets_if) + list(c.sets_shape)}
+            reps = []
+            for path in changed_paths(old, pf, reps):
+                if '*rep' in declared and any(path == op + '.' + k or path.startswith(op + '.' + k + '[') or path.startswith(op + '.' + k + '.')
+                                              for op, ob in reps for k in getattr(ob, 'rep', ())):
+                    continue           # lazily built caches may change (declared wholesale); invariants checked below
+                if not any(path == d or path.startswith(d + '.') or path.startswith(d + '[') for d in declared):
+                    ctx.oblige(I.oname('frame[%s]' % path, None), z3.BoolVal(False), 'post',
+                               extra='the function changes %s, which its contract does not declare (modifies/sets)' % path)
+            # representation fields changed (through their owners): the object invariant holds again at exit
+            done = set()
+            for opath, obj in reps:
+                if id(obj) in done:
+                    continue
+                done.add(id(obj))
+                for i, t in enumerate(getattr(obj, 'inv_texts', ())):
+                    ctx.oblige(I.oname('rep-inv[%s]' % opath, None, i), I.goal(gsub(t), Frame({'self': obj}, None)), 'post')
         else:
             e = outcome[1]
             res.exc_exits[e.cls] = res.exc_exits.get(e.cls, 0) + 1
@@ -236,6 +268,87 @@ def run_path(I, c, fn, module, res):
                            extra=e.why)
     except PathEnd:
         pass
+
+
+def changed_paths(old, new, reps=None):
+    """attribute paths (from the parameters) whose value at exit differs syntactically from the
+    entry snapshot; stream positions are not state a caller may rely on (havocked at every call)"""
+    from .vals import SObj, SRec, SStream, SList, SDict, SBytes, Code, SOpt
+    out, seen = [], set()
+
+    def same_leaf(a, b):
+        if a is b:
+            return True
+        if z3.is_expr(a) and z3.is_expr(b):
+            return a.eq(b)
+        if isinstance(a, Code) and isinstance(b, Code):
+            return same_leaf(a.isname, b.isname) and same_leaf(a.name, b.name) and same_leaf(a.raw, b.raw)
+        if isinstance(a, SBytes) and isinstance(b, SBytes):
+            return same_leaf(a.arr, b.arr) and same_leaf(a.off, b.off) and same_leaf(a.n, b.n)
+        if isinstance(a, (int, str, bytes, bool, type(None), float)) and isinstance(b, (int, str, bytes, bool, type(None), float)):
+            return type(a) is type(b) and a == b
+        return None
+
+    def walk(a, b, path):
+        if (id(a), id(b)) in seen:
+            return
+        seen.add((id(a), id(b)))
+        if isinstance(a, SObj) and isinstance(b, SObj):
+            for k in b.attrs:
+                if k not in a.attrs:
+                    continue          # a new attribute: no caller holds a view of it
+                if k in getattr(b, 'rep', ()):
+                    n0 = len(out)
+                    walk(a.attrs[k], b.attrs[k], path + '.' + k)
+                    if len(out) > n0 and reps is not None:
+                        reps.append((path, b))    # representation field changed: the invariant is checked at exit
+                    continue
+                walk(a.attrs[k], b.attrs[k], path + '.' + k)
+            return
+        if isinstance(a, SRec) and isinstance(b, SRec):
+            for k in b.fields:
+                if k in a.fields:
+                    walk(a.fields[k], b.fields[k], path + '.' + k)
+            return
+        if isinstance(a, SStream) and isinstance(b, SStream):
+            if not same_leaf(a.arr, b.arr) or not same_leaf(a.length, b.length):
+                out.append(path + '.B')
+            return
+        if isinstance(a, SList) and isinstance(b, SList):
+            if a.elem is not b.elem or same_leaf(a.n, b.n) is False:
+                out.append(path)
+            return
+        if isinstance(a, SDict) and isinstance(b, SDict):
+            if a.has is not b.has or a.get is not b.get:
+                out.append(path)
+            return
+        if isinstance(a, list) and isinstance(b, list):
+            if len(a) != len(b):
+                out.append(path)
+                return
+            for i, (x, y) in enumerate(zip(a, b)):
+                walk(x, y, '%s[%d]' % (path, i))
+            return
+        if isinstance(a, dict) and isinstance(b, dict):
+            if set(a) != set(b):
+                out.append(path)
+                return
+            for k in a:
+                walk(a[k], b[k], '%s[%r]' % (path, k))
+            return
+        if isinstance(a, SOpt) and isinstance(b, SOpt):
+            if same_leaf(a.isnone, b.isnone) is False:
+                out.append(path)
+            else:
+                walk(a.val, b.val, path)
+            return
+        r = same_leaf(a, b)
+        if r is False or (r is None and type(a) is not type(b)):
+            out.append(path)
+    for p in new.env:
+        if p in old.env:
+            walk(old.env[p], new.env[p], p)
+    return out
 
 
 # ------------------------------------------------------------------ discharge
